@@ -22,6 +22,9 @@ const (
 	FaultCloseMid    = "close_mid"    // connection closed in the middle of the reply
 	FaultCloseAfter  = "close_after"  // honest reply, then the connection is closed
 	FaultTruncBody   = "trunc"        // well-delimited but truncated honest body
+	// FaultCloseLost: the request is carried out, then the connection is closed before a single byte of the reply
+	// is written (opt-in, not part of AllFaults)
+	FaultCloseLost = "close_lost"
 	// FaultFailSame: SSH_AGENT_FAILURE now and for every later request with the very same bytes - an agent that
 	// refuses this key, however often it is asked (not part of AllFaults: the worlds opt in)
 	FaultFailSame = "fail_same"
@@ -37,6 +40,10 @@ const SlowPrefix = "slow:"
 // ActPrefix marks another non-fault: "act:<what>" calls OnAct(<what>) when the request has been received and before
 // it is answered - honestly, on the state after the act. Somebody else is a client of the same agent.
 const ActPrefix = "act:"
+
+// ActAfterPrefix: as ActPrefix, but the act happens right after the (honest) reply to the request was written: between
+// this request of a call and its next one.
+const ActAfterPrefix = "act_after:"
 
 // AllFaults lists the fault kinds.
 var AllFaults = []string{FaultFail, FaultEmpty, FaultGarbage, FaultWrongType, FaultOversize,
@@ -232,6 +239,12 @@ func (p *Peer) Serve(c io.ReadWriteCloser) int {
 			time.Sleep(time.Duration(secs) * time.Second)
 			fi = -1
 		}
+		actAfter := ""
+		if fi >= 0 && strings.HasPrefix(fault, ActAfterPrefix) {
+			p.fired[fi] = true
+			actAfter = fault[len(ActAfterPrefix):]
+			fi = -1
+		}
 		if fi >= 0 && strings.HasPrefix(fault, ActPrefix) {
 			p.fired[fi] = true
 			if p.OnAct != nil {
@@ -279,6 +292,10 @@ func (p *Peer) Serve(c io.ReadWriteCloser) int {
 			case FaultCloseBefore:
 				c.Close()
 				return p.reqIndex
+			case FaultCloseLost:
+				honest()
+				c.Close()
+				return p.reqIndex
 			case FaultCloseMid:
 				f := frame(honest())
 				c.Write(f[:len(f)/2+1])
@@ -304,6 +321,9 @@ func (p *Peer) Serve(c io.ReadWriteCloser) int {
 		}
 		if p.OnReply != nil {
 			p.OnReply(kind, req, body)
+		}
+		if actAfter != "" && p.OnAct != nil {
+			p.OnAct(actAfter, kind, idx)
 		}
 	}
 }
